@@ -1348,3 +1348,64 @@ M.contract(HARNESS + 'harness_matches_regex_validated',
                'nothing else: no effect': lambda trace: quiet(trace) and steps(trace) == [],
            },
            raises_only=())      # a regex that does not compile is an error TEXT
+
+
+# ----- run / shell / sys-cmd PROGRAM   (multi_phase/utils/instruction_from_parts_for_executing_program.py)
+from exactly_lib.impls.instructions.multi_phase.utils import instruction_from_parts_for_executing_program as _exe_program
+from exactly_lib.impls.instructions.multi_phase.define_symbol import parser as _def_parser
+
+
+def harness_run_program_validate_pre_sds(program, environment):
+    """`run` / `$` / `%` PROGRAM ([setup]): the embryo that InstructionEmbryoParser._parse builds from the parsed
+    program, the parts as parts_parser(...) makes them (its ResultTranslator)"""
+    return setup_fp.SetupPhaseInstructionFromParts(
+        ipu.instruction_parts_from_embryo(_exe_program.TheInstructionEmbryo(program), _exe_program.ResultTranslator())
+    ).validate_pre_sds(environment)
+
+
+M.contract(HARNESS + 'harness_run_program_validate_pre_sds',
+           params=dict(program=Iface(SdvOfDdvWithValidatorI), environment=Iface(PreSdsInstructionEnvI)),
+           returns=SVH, setup=lambda interp, args, ghosts: {'arg': args['program']}, ghosts=dict(arg=Any_),
+           ensures=dict(_ONE_ARG),      # in particular: the program is NOT started
+           raises={ArbitraryException: {}}, raises_only=())
+
+
+class ProgramParserI(Interface):
+    methods = {'parse': Method(returns=Iface(SdvOfDdvWithValidatorI), may_raise=(_mk_arbitrary,), event='parse-arg')}
+
+
+class ParseSourceOfProgramI(Interface):
+    attrs = {'has_current_line': Bool, 'is_at_eol__except_for_space': Bool, 'remaining_part_of_current_line': Str}
+    methods = {'consume': Method(event='consume'), 'consume_current_line': Method(event='consume')}
+
+
+from exactly_lib.section_document.element_parsers.instruction_parser_exceptions import \
+    SingleInstructionInvalidArgumentException as _InvalidArgument
+
+M.contract(P_I + 'multi_phase.utils.instruction_from_parts_for_executing_program:InstructionEmbryoParser._parse',
+           params=dict(self=Inst(_exe_program.InstructionEmbryoParser, instruction_name=Str,
+                                 program_parser=Iface(ProgramParserI)), source=Iface(ParseSourceOfProgramI)),
+           ensures={'the embryo of the program that was parsed; nothing is validated or run': lambda result, trace:
+           type(result) is _exe_program.TheInstructionEmbryo
+           and result._program is outcome_event(trace, 'parse-arg')[1] and steps(trace) == [] and quiet(trace)},
+           raises={ArbitraryException: {},
+                   _InvalidArgument: {'when': lambda source: source.has_current_line
+                                      and not source.is_at_eol__except_for_space}},      # superfluous arguments
+           raises_only=())
+
+
+# ----- def TYPE NAME = VALUE: the definition is checked as a symbol usage (C08); nothing else is validated or done
+
+def harness_define_symbol_validate_pre_sds(symbol, environment):
+    """`def` ([setup]): define_symbol.parser.TheInstructionEmbryo with PARTS_PARSER's translator"""
+    return setup_fp.SetupPhaseInstructionFromParts(
+        ipu.instruction_parts_from_embryo(_def_parser.TheInstructionEmbryo(symbol),
+                                          ipu.MainStepResultTranslatorForErrorMessageStringResultAsHardError())
+    ).validate_pre_sds(environment)
+
+
+M.contract(HARNESS + 'harness_define_symbol_validate_pre_sds',
+           params=dict(symbol=Any_, environment=Iface(PreSdsInstructionEnvI)), returns=SVH,
+           ensures={'success; in particular the symbol is not put into a table': lambda result, trace:
+           svh_kind(result) is None and trace == []},
+           raises_only=())
